@@ -188,6 +188,31 @@ M('L4', 'src/xdoctest/parser.py',
                             curr_state = DCNT""", ['C13'], "a bare '...' under a '>>>' line taken as source instead of want")
 
 
+M('F1R', 'src/xdoctest/doctest_example.py', "                            if 0 < tb_lineno <= len(orig_lines):",
+  "                            if True:", ['C09'], 'F1 repair reverted: traceback rewriter indexes past the failing part')
+M('F2R', 'src/xdoctest/directive.py', """                    if directive.inline and key not in state:
+                        # The inline overlay starts from a copy of the
+                        # persistent set, which itself stays untouched.
+                        state[key] = set(self._global_state[key])
+                    state[key].add(value)""", "                    state[key].add(value)", ['C04'], 'F2 repair reverted')
+M('F3R', 'src/xdoctest/static_analysis.py', "    visit_AsyncFunctionDef = visit_FunctionDef\n", "", ['C07', 'C16'],
+  'F3 repair reverted: async def invisible')
+M('F5R', 'src/xdoctest/static_analysis.py', "if re.match('[rRuU]?' + re.escape(trip), startline.strip()):",
+  "if startline.strip().startswith((trip, 'r' + trip)):", ['C08'], 'F5 repair reverted')
+M('F7R', 'src/xdoctest/checker.py', "                    return _check_match(b_, a_, runstate)",
+  "                    return _check_match(a_, b_, runstate)", ['C05'], 'F7 repair reverted')
+M('F8R', 'src/xdoctest/parser.py',
+  "final_lines = exec_source_lines[ps1_linenos[-1]:] if ps1_linenos else exec_source_lines",
+  "final_lines = exec_source_lines", ['C02', 'C18'], 'F8 repair reverted')
+M('F11R', 'src/xdoctest/checker.py', "                            inner = inner.strip()", "                            pass",
+  ['C05'], 'F11 repair reverted')
+M('R3', 'src/xdoctest/runner.py', """            summaries.append(summary)
+            if example.warn_list:""", """            if summary['skipped'] and summaries:
+                continue
+            summaries.append(summary)
+            if example.warn_list:""", ['C10', 'C15'], 'a skipped doctest after the first is dropped from the tally')
+
+
 def make_copy():
     d = tempfile.mkdtemp(prefix='xv_mut_')
     shutil.copytree(os.path.join(REPO, 'src'), os.path.join(d, 'src'),
